@@ -531,3 +531,30 @@ PROPS['C18'] = dict(
     assumptions=COMMON_ASSUME,
     extra_coverage={'pair_comparisons': lambda agg, d: agg['counters'].get('pair_comparisons', 0), 'scalar_comparisons': lambda agg, d: agg['counters'].get('scalar_comparisons', 0)},
 )
+
+
+# ---------------------------------------------------------------- C14
+def c14_jobs(tier):
+    return [
+        Job('lockstep', 'c14', 'hist', q(tier, 8000, 400000), timeout=q(tier, 900, 10000)),
+        Job('lockstep-arduino', 'c14', 'hist', q(tier, 6000, 300000), shim=True, timeout=q(tier, 900, 10000)),
+        Job('lockstep-small', 'c14', 'hist', q(tier, 4000, 200000), defines={'ARDUINOJSON_STRING_LENGTH_SIZE': 1, 'ARDUINOJSON_SLOT_ID_SIZE': 1, 'ARDUINOJSON_POOL_CAPACITY': 4, 'ARDUINOJSON_DEBUG': 1}, timeout=q(tier, 900, 10000)),
+    ]
+
+
+PROPS['C14'] = dict(
+    level='exploration',
+    rule='the histories of C04 (few keys and strings so that equal strings are shared; strings: empty, NUL inside, bytes >= 0x80, long, and a quarter number literals of every shape) replayed in lock-step '
+         'on three sets of documents: A every string as const char* kept by address (exactly sized immutable heap block), B as std::string, C rotating char*, char[], string_view, JsonString copied and linked, '
+         'flash string and Arduino String (shim job); copied sources are scribbled over and freed right after each call. After every step each replay must equal the model and the three replays must agree '
+         'on the full observation vector (serializeJson/MsgPack, size, nesting, 14 is<T>, 12 as<T> incl. numeric conversion of strings, comparisons, operator| defaults, lookups through std::string / string_view / '
+         'JsonString / const char* keys) of every document, live reference and probed target - everything except JsonString::isLinked(). distinct = distinct history',
+    jobs=c14_jobs,
+    min_evaluations=dict(quick=15000, thorough=800000),
+    technique='differential runtime monitoring: one generated history replayed on three storage variants of the same documents under ASan+UBSan, compared by a full observation vector and against the ordered-tree model',
+    level_text='Exploration (differential): observationally equivalent replays on every history generated.',
+    level_note='A string with an embedded NUL cannot be handed over by a zero-terminated kind; those strings go through std::string in every replay.',
+    assumptions=COMMON_ASSUME,
+    extra_coverage={'observation_vectors': lambda agg, d: agg['counters'].get('observation_vectors', 0), 'key_lookups': lambda agg, d: agg['counters'].get('key_lookups', 0)},
+    must_observe={'observation vectors': lambda agg, d: agg['counters'].get('observation_vectors', 0) > 0},
+)
